@@ -247,11 +247,13 @@ impl ParserContext<'_> {
         while let Some(token) = tokens.read() {
             let is_reexport = match token.parts()[0] {
                 Token::EXPORT => {
+                    // a bare `export` has no name part; it is not a re-export and is reported as
+                    // malformed when the procedure declaration is parsed below
+                    let proc_name = token.parts().get(1).copied().unwrap_or_default();
                     if !allow_export {
-                        let proc_name = token.parts()[1];
                         return Err(ParsingError::proc_export_not_allowed(token, proc_name));
                     }
-                    token.parts()[1].contains(LibraryPath::PATH_DELIM)
+                    proc_name.contains(LibraryPath::PATH_DELIM)
                 }
                 Token::PROC => {
                     // no validation needed, parse the procedure below
